@@ -432,7 +432,7 @@ def run(ctx, report):
                       'under whatever spelling of its address the evaluated expression uses); shared with C07.D15', floor=3)
     from .c07 import lookup_key_rule
     lookup_key_rule(R14, ea, methods)
-    R16 = report.rule('C06.D16', 'the symbolic machine interpreted from its source (mpool, eval_abs, the node classes, the simplifier) on 28 instruction histories - a cell read at its own '
+    R16 = report.rule('C06.D16', 'the symbolic machine interpreted from its source (mpool, eval_abs, the node classes, the simplifier) on 30 instruction histories - a cell read at its own '
                       'width, narrower, wider, from the middle, across cells and before a cell, through constant and symbolic addresses, values that became constants on the way through every '
                       'shift / rotate evaluator: every register and probed cell, valued on three initial states, equals the concrete execution of the history (shared with C07.D17)', floor=20)
     from .. import machine as _machine
